@@ -335,6 +335,28 @@ func TestC09_P_DataCodec(t *testing.T) {
 	rapid.Check(t, func(t *rapid.T) {
 		c := genDataMessage(t)
 		var err error
+		// history: decoders are called in arbitrary succession in one process; a rejected input must leave nothing behind
+		// that changes how the next, valid message is read
+		if rapid.IntRange(0, 2).Draw(t, "failedDecodeFirst") == 0 {
+			bad := append([]byte{}, genDataMessage(t).wire...)
+			switch rapid.IntRange(0, 3).Draw(t, "badkind") {
+			case 0:
+				if len(bad) > 1 {
+					bad = bad[:rapid.IntRange(1, len(bad)-1).Draw(t, "truncate")]
+				}
+			case 1:
+				bad = append(bad, 0x20, 0x05, 0x20, 0x06, 0x22) // block sizes, then a truncated packed run
+			case 2:
+				bad = append(append([]byte{0x20, 0x6f, 0x20, 0xde, 0x01}, bad...), 0xff) // block sizes 111, 222, then garbage
+			default:
+				bad = append(bad, 0x42, 0x7f)
+			}
+			must(t, "decode of a damaged message", func() {
+				_, _ = data.DecodeUnixFSData(bad)
+				_, _ = data.DecodeUnixTime(bad)
+			})
+			c.flags["after-failed-decode"] = true
+		}
 		must(t, "UnixFS Data codec", func() { err = c09CheckData(c.msg, c.wire) })
 		if err != nil {
 			t.Fatalf("C09: %v", err)
